@@ -300,6 +300,42 @@ pub fn ref_encode(m: &WMsg) -> Vec<u8> {
     out
 }
 
+/// The text a name is read as when undecodable octets are replaced (each maximal invalid run -> one
+/// U+FFFD, runs of U+FFFD collapsed): two names that differ only in undecodable octets collide, and
+/// which of them wins is not specified - such messages count as having duplicate names.
+pub fn replaced_name_key(b: &[u8]) -> String {
+    let mut out = String::new();
+    let mut rest = b;
+    while !rest.is_empty() {
+        match std::str::from_utf8(rest) {
+            Ok(s) => {
+                out.push_str(s);
+                break;
+            }
+            Err(e) => {
+                let (good, bad) = rest.split_at(e.valid_up_to());
+                out.push_str(std::str::from_utf8(good).unwrap());
+                out.push('\u{fffd}');
+                rest = &bad[e.error_len().unwrap_or(bad.len())..];
+            }
+        }
+    }
+    let mut collapsed = String::with_capacity(out.len());
+    let mut prev = false;
+    for ch in out.chars() {
+        if ch == '\u{fffd}' {
+            if !prev {
+                collapsed.push(ch);
+            }
+            prev = true;
+        } else {
+            collapsed.push(ch);
+            prev = false;
+        }
+    }
+    collapsed
+}
+
 /// Semantic RFC 8010 rules that the structural decode does not enforce. Returned as a list of
 /// human-readable complaints (empty = well-formed in this stricter sense).
 pub fn semantic_issues(m: &WMsg) -> Vec<String> {
@@ -349,7 +385,7 @@ pub fn semantic_issues(m: &WMsg) -> Vec<String> {
             WVal::Coll(members) => {
                 let mut seen = std::collections::BTreeSet::new();
                 for mm in members {
-                    if !seen.insert(mm.name.clone()) {
+                    if !seen.insert(replaced_name_key(&mm.name)) {
                         out.push(format!("{path}: duplicate member name {:?}", String::from_utf8_lossy(&mm.name)));
                     }
                     for (i, mv) in mm.values.iter().enumerate() {
@@ -365,7 +401,7 @@ pub fn semantic_issues(m: &WMsg) -> Vec<String> {
             if a.name.is_empty() {
                 out.push(format!("group {gi}: attribute with empty name"));
             }
-            if !seen.insert(a.name.clone()) {
+            if !seen.insert(replaced_name_key(&a.name)) {
                 out.push(format!("group {gi}: duplicate attribute name {:?}", String::from_utf8_lossy(&a.name)));
             }
             if a.values.is_empty() {
